@@ -596,7 +596,7 @@ class C10(PropertyCheck):
         if self.tier == "quick":
             self.rng.shuffle(st)
             st = st[:450]
-        n_rand = 700 if self.tier == "quick" else 9000
+        n_rand = 1500 if self.tier == "quick" else 40000
         rnd = [gen_case(self.rng, big=(i % 25 == 0)) for i in range(n_rand)]
         return corpus + st + rnd, len(corpus), len(st)
 
